@@ -108,7 +108,11 @@ def impl_stream(name, chunks, readsize):
             if not d:
                 break
             got.append(d)
-        return {"passed": [c.hex() for c in got], "total": st.total_read, "digest": st.hash_value}
+        from dvc_data.hashfile.hash import fobj_md5
+
+        # the library's own consumer loop over the same short-reading file object
+        whole = fobj_md5(ChunkFile(chunks), chunk_size=readsize, name=name)
+        return {"passed": [c.hex() for c in got], "total": st.total_read, "digest": st.hash_value, "fobj_md5": whole}
 
     kind, v = safe_call(f)
     return v if kind == "ok" else {"err": v}
@@ -132,7 +136,7 @@ def run_streams(ctx, n):
         ctx.count("nchunks:" + ("1" if len(chunks) == 1 else "0" if not chunks else ">1"))
         impl = impl_stream(name, chunks, readsize)
         fed = bytes.fromhex(ans["fed"])
-        model = {"passed": ans["passed"], "total": ans["total"], "digest": ref_digest(name, fed)}
+        model = {"passed": ans["passed"], "total": ans["total"], "digest": ref_digest(name, fed), "fobj_md5": ref_digest(name, fed)}
         if name.lower() in ("md5", "md5-dos2unix"):
             ctx.corr("Md5.hex~hashlib.md5", {"fed": ans["fed"]}, hashlib.md5(fed).hexdigest(), ans["md5"])
         ctx.corr("Hash.runStream~get_hash_stream", case, impl, model)
@@ -143,10 +147,11 @@ def run_streams(ctx, n):
         ok = impl["passed"] == [c.hex() for c in chunks]
         if name != "md5-dos2unix":
             ok = ok and impl["digest"] == ref_digest(name, data) and impl["total"] == len(data)
+            ok = ok and impl["fobj_md5"] == ref_digest(name, data)
         elif len(chunks) == 1:
             from_text = _is_text_ref(data[:512])
             exp = hashlib.md5(data.replace(b"\r\n", b"\n") if from_text else data).hexdigest()
-            ok = ok and impl["digest"] == exp
+            ok = ok and impl["digest"] == exp and impl["fobj_md5"] == exp
         ctx.oracle(ok, case, {"impl": impl, "why": "digest/pass-through/total differ from the reference"})
         ctx.sample({"case": {**case, "chunks": case["chunks"][:2]}, "impl_digest": impl.get("digest")})
 
@@ -284,10 +289,10 @@ def replay(ctx, payload):
         impl = impl_stream(c["name"], chunks, c["readsize"])
         fed = bytes.fromhex(ans["fed"])
         ctx.case(c)
-        ctx.corr("replay", c, impl, {"passed": ans["passed"], "total": ans["total"], "digest": ref_digest(c["name"], fed)})
+        ctx.corr("replay", c, impl, {"passed": ans["passed"], "total": ans["total"], "digest": ref_digest(c["name"], fed), "fobj_md5": ref_digest(c["name"], fed)})
         data = b"".join(chunks)
         if c["name"] != "md5-dos2unix":
-            ctx.oracle("err" not in impl and impl["digest"] == ref_digest(c["name"], data) and impl["total"] == len(data) and impl["passed"] == c["chunks"], c, {"impl": impl})
+            ctx.oracle("err" not in impl and impl["digest"] == ref_digest(c["name"], data) and impl["total"] == len(data) and impl["passed"] == c["chunks"] and impl["fobj_md5"] == ref_digest(c["name"], data), c, {"impl": impl})
         else:
             ctx.oracle("err" not in impl and impl["passed"] == c["chunks"], c, {"impl": impl})
     else:
